@@ -118,9 +118,11 @@ SIG_RES = ['has invalid dimension', 'IndexError', 'Array value set to scalar nod
 class ModelFail(Exception):
     """the program must be rejected (flags empty) / is rejected by a recorded defect (flags non-empty)"""
 
-    def __init__(self, reason, sigs=None, flag=None):
+    def __init__(self, reason, sigs=None, flag=None, payload=None, who=None):
         Exception.__init__(self, reason)
         self.reason, self.sigs, self.flag = reason, sigs, flag
+        self.payload = payload      # the value the real code is expected to choke on (third argument of its exception)
+        self.who = who              # path of the node whose cast fails (its source line is the second argument)
 
 
 # ----------------------------------------------------------------------------- rendering
@@ -320,7 +322,7 @@ def check_constraints(env, customs):
                 raise ModelFail('condition violated', ['Node does not fullfil a condition:'])
 
 
-def fit_host(v, D, typ, sl, flags):
+def fit_host(v, D, typ, sl, flags, who=None):
     """shape of a delivered value against the host's declared shape D.  Documented semantics: they must agree.
     With the stale-raw-value defect the real checks decide: only the declared axes are compared (extra axes pass), a
     scalar str host takes the source text of an array as it was written, anything else fails to cast."""
@@ -332,7 +334,7 @@ def fit_host(v, D, typ, sl, flags):
     if not D:
         if typ == 'str' and not sl and isinstance(v, list) and all(isinstance(x, str) for x in v):
             return lit_text(dict(items=v, type='str'))
-        raise ModelFail('array delivered to a scalar host', SIG_CAST, F_STALE)
+        raise ModelFail('array delivered to a scalar host', SIG_CAST, F_STALE, payload=v, who=who)
     if len(S) < len(D) or S[:len(D)] != D:
         raise ModelFail('delivered shape %r does not fit host %r' % (S, D), SIG_CAST, F_STALE)
     return v
@@ -430,7 +432,7 @@ def interp(stmts, env, flags, remotes, where='main'):
                     v = apply_slice(srcval, sl)
                 except (IndexError, TypeError):
                     raise ModelFail('slice does not fit the delivered value', SIG_CAST, F_STALE)
-                v = fit_host(v, list(st.get('dim') or []), st['type'], sl, flags)
+                v = fit_host(v, list(st.get('dim') or []), st['type'], sl, flags, st['path'])
                 unit = st.get('unit') or m.unit
                 try:
                     val = cast(v, st['type'])
@@ -455,8 +457,8 @@ def interp(stmts, env, flags, remotes, where='main'):
                 C.add('injection-in-modification')
                 if sl:
                     C.add('slice-in-modification')
-                if sl and isstr and F_STRSLICE in flags:
-                    raise ModelFail('string slice', ['JSONDecodeError'], F_STRSLICE)
+                if sl and isstr and F_MODSLICE in flags:
+                    raise ModelFail('string slice in a modification', ['JSONDecodeError'], F_MODSLICE)
                 if sl and F_MODSLICE in flags and not isstr:
                     try:
                         part = apply_slice(srcval, sl)
@@ -466,13 +468,13 @@ def interp(stmts, env, flags, remotes, where='main'):
                         raise ModelFail('slice of a modification yields an array', ['Array value set to scalar node:'], F_MODSLICE)
                     v = srcval          # the slice is dropped, the whole raw value is cast onto the host
                     if vshape(v) != vshape(h.value):
-                        raise ModelFail('unsliced value does not fit host', SIG_CAST, F_MODSLICE)
+                        raise ModelFail('unsliced value does not fit host', SIG_CAST, F_MODSLICE, payload=v, who=h.path)
                 else:
                     try:
                         v = apply_slice(srcval, sl)
                     except (IndexError, TypeError):
                         raise ModelFail('slice does not fit the delivered value', SIG_CAST, F_STALE)
-                    v = fit_host(v, vshape(h.value), h.type, sl, flags)
+                    v = fit_host(v, vshape(h.value), h.type, sl, flags, h.path)
                 try:
                     v = cast(v, h.type)
                 except (ValueError, TypeError):
